@@ -367,7 +367,15 @@ def _compare_paths(live_paths, ref_paths, effects, outcome_norm, rn,
         known = {a: v for a, v in lval.items()
                  if atom_vocab_key(a) in vocab}
         unk = [a for a in lval if atom_vocab_key(a) not in vocab]
-        lvals.append((lp, lval, known, unk, norm(lp)))
+        lo_ = norm(lp)
+        if unk and lo_[0] == "raise" and str(lo_[1]).endswith(
+                "AssertionError") and any(
+                    lval[a] is not None for a in unk):
+            # an assertion (assert / raise AssertionError) about something
+            # the reference does not observe: a defensive check, read as an
+            # assumption -- the path on which it fails is left out
+            continue
+        lvals.append((lp, lval, known, unk, lo_))
     rvals = [({_rename_atom(a, rn): v for a, v in rp.valuation.items()},
               norm(rp)) for rp in ref_paths]
     for lp, lval, known, unk, lo in lvals:
